@@ -19,6 +19,9 @@ func init() {
 	c16 := c16Twin(true)
 	registerTwin("C16", c16)
 	registerTwin("C16r", c16Twin(false))
+	// C16s: the graceful-shutdown scenario of C08 as a shifted twin (the cumulative TSN carried by SHUTDOWN, T2)
+	registerScenario("C16s", scenarioShutdown)
+	registerTwin("C16s", c16Twin(false))
 }
 
 func c16Twin(shiftStreams bool) twinDef {
